@@ -272,6 +272,7 @@ func wlRunCase(c *wlCase, backend string, rt node.RootType, st *wlStats, maxAcce
 	variants := append([]wlVariant{{C: "honest", Log: c.Log, Accept: true}}, c.Variants...)
 	sort.SliceStable(variants, func(i, j int) bool { return !variants[i].Accept && variants[j].Accept })
 	var ndbB dbapi.NodeDB
+	var rcB *storage.RootCache
 	dirty := true
 	nAcc := 0
 	defer func() {
@@ -291,6 +292,7 @@ func wlRunCase(c *wlCase, backend string, rt node.RootType, st *wlStats, maxAcce
 				return out
 			}
 			dirty = false
+			rcB = nil
 		}
 		if ndbB.HasRoot(r2) {
 			// The expected root is already present (e.g. the implicit empty root): Apply is a no-op by design.
@@ -303,7 +305,12 @@ func wlRunCase(c *wlCase, backend string, rt node.RootType, st *wlStats, maxAcce
 			}
 			nAcc++
 		}
-		rc, _ := storage.NewRootCache(ndbB)
+		// one root cache per database, as a storage backend has it: a rejected log is followed by the next log for the same
+		// expected root on the SAME cache (rejected variants come first, the accepted ones last)
+		if rcB == nil {
+			rcB, _ = storage.NewRootCache(ndbB)
+		}
+		rc := rcB
 		st.applies.Add(1)
 		_, aerr := rc.Apply(ctx, r1, r2, toWriteLog(v.Log))
 		has := ndbB.HasRoot(r2)
